@@ -85,8 +85,8 @@ func (c *Commit) Clone() (clone Commit) {
 	clone.ID = c.ID
 	clone.Chunk = c.Chunk
 	for _, u := range c.Updates {
-		if len(u.buffer) > 0 {
-			clone.Updates = append(clone.Updates, u.Clone())
+		if buffer := u.cloneChunk(c.Chunk); len(buffer.buffer) > 0 {
+			clone.Updates = append(clone.Updates, buffer)
 		}
 	}
 	return
